@@ -30,7 +30,16 @@ def main():
         sys.exit(mod.main(a.tier, a.replay, seed))
     from sx import harness
     if a.replay:
+        import json
+        if hasattr(mod, "scenarios") and "schedule" in json.load(open(a.replay)):
+            from cfa.driver import replay_file
+            sys.exit(replay_file(mod.PROPERTY, mod.scenarios("thorough"), a.replay))
         sys.exit(harness.replay_file(mod, a.replay))
+    if hasattr(mod, "scenarios") and not a.case:
+        # a property with both parts: symbolic execution of the sequential cases, then model checking of the interleavings
+        rc1 = harness.run_property(mod, a.tier, a.jobs, seed)
+        rc2 = mod.run_scenarios(a.tier, seed)
+        sys.exit(1 if 1 in (rc1, rc2) else (rc1 or rc2))
     if a.case:
         orig = mod.cases
         mod.cases = lambda tier: [c for c in orig(tier) if c.name == a.case]
